@@ -66,3 +66,22 @@ def run_py(text, A, B=None, a_names=None, b_names=None, timeout=10.0, normalize=
             # a timeout is a wall-clock judgement: confirm it once with a 12x budget on private copies before it may become a verdict
             return run_py(text, [list(r) if isinstance(r, list) else r for r in A], None if B is None else [list(r) if isinstance(r, list) else r for r in B], a_names, b_names, timeout * 12, normalize, True)
         return {'records': None, 'partial': out, 'header': None, 'warnings': warns, 'error': classify_py(e)}
+
+
+def run_py_registry(text, A, B=None, a_names=None, b_names=None, join_id='b', decoys=(), decoys_first=True, timeout=10.0):
+    """Like run_py, through rbql.query + TableIterator + a user ListTableRegistry that holds the join table under join_id next to decoy tables
+    (decoys: list of (table_id, table)). The join table must be found by its exact id."""
+    eng = tree.engine()
+    out, warns = [], []
+    w = eng.TableWriter(out)
+    try:
+        infos = [eng.ListTableInfo(join_id, B, b_names)] if B is not None else []
+        dec = [eng.ListTableInfo(i, t, b_names) for i, t in decoys]
+        reg = eng.ListTableRegistry(dec + infos if decoys_first else infos + dec)
+        with core.watchdog(timeout):
+            eng.query(text, eng.TableIterator(A, a_names), w, warns, reg)
+        return {'records': out, 'header': w.header if w.header else None, 'warnings': warns, 'error': None}
+    except BaseException as e:
+        if isinstance(e, (KeyboardInterrupt, SystemExit)):
+            raise
+        return {'records': None, 'partial': out, 'header': None, 'warnings': warns, 'error': classify_py(e)}
